@@ -438,7 +438,25 @@ func (g *G) btcData() []byte {
 }
 
 // length words that are interesting for a calldata of length n
+// lenWord never returns a word whose low 64 bits, read as int64, lie in [2^31, 2^49): such a value used as an allocation
+// size is a fatal out-of-memory that would take the in-process driver down; that band is explored by C06's `iso` op in a
+// memory-bounded child process (dangerWords).
 func (g *G) lenWord(n int) *big.Int {
+	v := g.lenWord0(n)
+	low := new(big.Int).And(v, new(big.Int).SetUint64(1<<64-1))
+	if low.Cmp(pow2(31)) >= 0 && low.Cmp(pow2(49)) < 0 {
+		v.Add(v, pow2(50))
+	}
+	return v
+}
+
+// length words that, used as an allocation size, cannot be satisfied (or only just): run in a child process only
+func dangerWords() []*big.Int {
+	return []*big.Int{pow2(31), new(big.Int).Add(pow2(32), big.NewInt(5)), pow2(36), pow2(40), pow2(44), pow2(47),
+		new(big.Int).Sub(pow2(48), big.NewInt(1)), new(big.Int).Add(pow2(64), pow2(40)), new(big.Int).Add(pow2(255), pow2(47))}
+}
+
+func (g *G) lenWord0(n int) *big.Int {
 	switch g.Intn(10) {
 	case 0:
 		k := uint(g.Intn(257))
@@ -519,6 +537,7 @@ func (g *G) malformed(kind string) []byte {
 func genC01(g *G) {
 	dsts := []string{"evm", "sub", "btc"}
 	genC01Long(g)
+	genC01Seq(g)
 	var prev []string
 	emit := func(srcKind, dstKind string, a1, a2 string) {
 		s, d, n, r := g.ids()
